@@ -132,4 +132,13 @@ example : MemoInv (fun k : Nat => k) [(0, 0), (2, 2)]
     · cases h; omega
     · cases h
 
+/-- The invariant is NECESSARY, and this is what an in-place re-basing of a shared, memoised operations object
+produces (seeded changes C01_dm2, C07_dm1, C09_dm1): a memo in which key 2 stands for base 3 answers 3 for 2 - and by
+`memo_sticky` keeps doing so. The harness's memo cases check exactly `MemoInv` on the real `dit.math.ops.cache`. -/
+example : (memoCall (fun k : Nat => k) [(2, 3)] 2).1 = 3 ∧ ¬ MemoInv (fun k : Nat => k) [(2, 3)] := by
+  refine ⟨by decide, ?_⟩
+  intro h
+  have h3 : (3 : Nat) = 2 := h 2 3 (by decide)
+  omega
+
 end Dit.Props.C10Memo
